@@ -15,6 +15,14 @@ def gen_cases(ctx):
         cfg = gen.pipeline_cfg(rnd)
         vals = gen.records(rnd, 40 if rnd.random() < 0.2 else 12)
         out.append((cfg, gen.stream(vals, rnd)))
+    # selections absent in complementary columns, with --unique / sort / group on top
+    COMP = [{'a': 1}, {'b': 1}, {'a': 1, 'b': 1}, {'a': 2}, {'b': 2}, {}, {'c': 1}, {'a': 1, 'c': 1}, {'a': None}]
+    for i in range(n // 6):
+        vals = [rnd.choice(COMP) for _ in range(rnd.choice([3, 6, 12]))]
+        cfg = lib.new_cfg(select=rnd.choice([['.a', '.b'], ['.a=x', '.b=y', '.c=z'], ['.b', '.a']]), unique=rnd.random() < 0.7)
+        if rnd.random() < 0.4: cfg['sort'] = [rnd.choice(['.a', '.b=desc'])]
+        if rnd.random() < 0.3: cfg['group'] = True
+        out.append((cfg, gen.stream(vals, rnd)))
     if tier == 'thorough':
         canned = [gen.stream(gen.records(rnd, 12)) for _ in range(3)]
         opts = [('set', ['x=1']), ('split', '.arr'), ('filter', '(!= .a 0)'), ('select', ['.a', '.k=K']), ('unique', True),
